@@ -104,8 +104,9 @@ class TypePlan:
     """object spec, data-object invariant and Enc_T as an SMT template over contract expressions, for ONE shape, computed
     from the pydsdl model by a layout walk written from the specification (alignment, padding, length prefixes, tags)"""
 
-    def __init__(self, lang, t, shape: dict, root: str = "self"):
+    def __init__(self, lang, t, shape: dict, root: str = "self", allow_delimited: bool = True):
         self.lang, self.t, self.shape = lang, t, shape
+        self.allow_delimited = allow_delimited
         self.invariant: typing.List[str] = []
         self.args: typing.List[str] = []
         self.terms: typing.List[str] = []
@@ -185,8 +186,13 @@ class TypePlan:
 
     def _comp(self, ct, ref: str, path: str):
         inner = ct.inner_type
+        header_at = None
         if isinstance(ct, pydsdl.DelimitedType) and ref != "self":
-            raise NotInSubset("nested delimited type (fork_bytes shares storage between two serializers)")
+            if not self.allow_delimited:
+                raise NotInSubset("nested delimited type (fork_bytes)")
+            header_at = (len(self.terms), self.off)  # the delimiter header: filled in once the nested length is known
+            self.terms.append("")
+            self.off += 32
         fields: typing.Dict[str, typing.Any] = {}
         cls = self.lang.filter_short_reference_name(ct) if not getattr(ct, "has_parent_service", False) else ct.short_name
         if isinstance(inner, pydsdl.UnionType):
@@ -209,6 +215,10 @@ class TypePlan:
                 a = self.lang.filter_id(f.name, "any")
                 fields[a] = self._field(dt, f"{ref}.{a}", f"{path}.{f.name}")
         self._align(8)
+        if header_at is not None:
+            i, hoff = header_at
+            nbytes = (self.off - hoff - 32) // 8
+            self.terms[i] = f"(* {2 ** hoff} {nbytes})" if hoff else str(nbytes)
         return SObj(cls, fields)
 
     def _field(self, dt, ref: str, path: str):
@@ -354,7 +364,25 @@ def install_serializer_callees(e) -> None:
         e.contracts[S + f"add_unaligned_f{w}"] = sel_float(f"add_unaligned_f{w}", w, False)
     e.contracts[S + "skip_bits"] = lambda it, a, kw: _skip(r_of(it, a[0]), _lit_arg(a[1], "skip_bits argument"))
     e.contracts[S + "pad_to_alignment"] = lambda it, a, kw: _pad(it, a)
-    e.attr_hooks["Serializer.current_bit_length"] = lambda it, o: it.ctx.get_field(o, "_bit_offset")
+    def current_bit_length(it, o):
+        off = it.ctx.get_field(o, "_bit_offset")
+        if "_fork_base" in it.ctx.heap[o.ref]:
+            return it.binop(ast.Sub(), off, it.ctx.get_field(o, "_fork_base"))
+        return off
+    e.attr_hooks["Serializer.current_bit_length"] = current_bit_length
+
+    def fork_bytes(it, recv, size):
+        """Serializer.fork_bytes (ASSUMED, NumPy view semantics): the fork writes into the SAME storage from the parent's
+        byte position; it is modelled as a serializer on the same array object whose cursor starts at the parent's cursor
+        and whose current_bit_length is counted from there.  The fork's own size limit is not modelled (a fork that is too
+        small raises IndexError in the real code: bounded stand-in only)."""
+        from vk.epy import PyRaise
+        if r_of(it, recv) != 0:
+            raise PyRaise("ValueError")
+        cur = it.ctx.get_field(recv, "_bit_offset")
+        return it.ctx.new_obj("Serializer", {"_buf": it.ctx.get_field(recv, "_buf"), "_bit_offset": cur, "_fork_base": cur})
+    e.intrinsics["Serializer.fork_bytes"] = fork_bytes
+    e.used("Serializer.fork_bytes: the fork shares the parent's storage (NumPy view) from the parent's byte position; its size limit is not modelled")
 
 
 def _skip(r: int, k: int) -> Contract:
